@@ -238,7 +238,7 @@ Definition handle_perr (isreq : bool) (code : option N) (af : after) (s : stream
   let ss_fin := sst_eqb (ss s) SDone || sst_eqb (ss s) SErrored in
   let talk := isreq && (sst_eqb (cs s) SStreamReq || sst_eqb (cs s) SDone) && negb ss_fin in
   let need := negb (sst_eqb (cs s) SErrored || ss_fin) in
-  let r1 := if talk then (upd_aborted true (upd_cs SErrored s), [CSend TServer (EReqErr code)]) else (s, []) in
+  let r1 := if talk then (upd_aborted true (upd_ss SErrored (upd_cs SErrored s)), [CSend TServer (EReqErr code)]) else (s, []) in
   seq_res r1 (fun s1 =>
     if need then emit_hook HkError (AwPErr isreq code af) (upd_ferr (Some false) s1)
     else perr_tail isreq code af s1).
@@ -335,8 +335,12 @@ Definition state_stream_req (o : opts) (e : hev) (s : stream) : res :=
   | _ => crash s
   end.
 Definition cont_req_stream (s : stream) : res :=
-  let s1 := upd_cs SDone s in
-  seq_res (s1, [CSend TServer EReqEOM]) (fun s2 => if sst_eqb (ss s2) SDone then flow_done s2 else (s2, [])).
+  match check_killed (negb (sst_eqb (ss s) SDone || sst_eqb (ss s) SErrored)) s with
+  | Some r => r
+  | None =>
+      let s1 := upd_cs SDone s in
+      seq_res (s1, [CSend TServer EReqEOM]) (fun s2 => if sst_eqb (ss s2) SDone then flow_done s2 else (s2, []))
+  end.
 
 (* ---------- response side *)
 Definition stream_resp_data (o : opts) (d : bytes) (s : stream) : res :=
